@@ -1,19 +1,21 @@
 """C10 — concurrent use gives the sequential results, race-free, with exact metrics."""
-import json, os, random, re
+import json, os, random, re, signal, subprocess
 import common, gen10, sqlgen
 from common import Report, log
 
 MANIFEST = dict(
-    technique='Coq proofs over ALL schedules and any number of goroutines (metrics update protocol as a small-step program regenerated from the source each run; goroutines over fresh pools; lockset discipline over the regenerated access table of every package-level variable) + race-detector build and barrier-released rounds on the implementation',
-    text="Theorems: metrics_exact (every counter equals its initial value plus the sum of every call's adds, the largest/smallest query size are the true maximum/minimum, for every interleaving of the individual atomic operations of any number of concurrent Record* calls; proved generically for add-only locations and for the class of compare-and-swap retry loops (is_rmw_loop: a decidable abstract execution of the translated control-flow graph — any loop/break/continue/flag/helper layout, not one literal instruction list), instantiated on the programs translated from the current source of pkg/metrics and pkg/sql/monitor (metrics state found by role, same-package helpers inlined, short-circuit conditions as control flow), shape check discharged by complete evaluation); *_refuted (load-compare-store and a single swap attempt lose the extreme: concrete two-goroutine schedules); results_sequential (goroutines that share only pools of observationally fresh objects return what they return alone, any schedule); footprint_race_free (every access to package-level state that is written outside init is a pool/once/atomic/sync.Map operation or holds the variable's mutex in a mode excluding the conflicting access: lockset discipline on the access table regenerated from go/ssa). Implementation: translated programs are replayed sequentially against GetStats; barrier-released single-record rounds compare the totals with the true values after quiescence; N in {2, cores, 4*cores} goroutines run seeded mixes of tokenize/parse/format/extract/scan/lint/suggest/span/config/metrics-read under the race detector, every result compared with the sequential answer.",
+    technique='Coq proofs over ALL schedules and any number of goroutines (metrics update protocol as a small-step program regenerated from the source each run; goroutines over fresh pools; lockset discipline over the regenerated access table of every package-level variable; deadlock freedom by a rank on the mutexes over the regenerated table of Lock/RLock sites with may-held sets, sync.RWMutex writer preference modelled) + race-detector build and barrier-released rounds on the implementation',
+    text="Theorems: metrics_exact (every counter equals its initial value plus the sum of every call's adds, the largest/smallest query size are the true maximum/minimum, for every interleaving of the individual atomic operations of any number of concurrent Record* calls; proved generically for add-only locations and for the class of compare-and-swap retry loops (is_rmw_loop: a decidable abstract execution of the translated control-flow graph — any loop/break/continue/flag/helper layout, not one literal instruction list), instantiated on the programs translated from the current source of pkg/metrics and pkg/sql/monitor (metrics state found by role, same-package helpers inlined, short-circuit conditions as control flow), shape check discharged by complete evaluation); *_refuted (load-compare-store and a single swap attempt lose the extreme: concrete two-goroutine schedules); results_sequential (goroutines that share only pools of observationally fresh objects return what they return alone, any schedule); footprint_race_free (every access to package-level state that is written outside init is a pool/once/atomic/sync.Map operation or holds the variable's mutex in a mode excluding the conflicting access: lockset discipline on the access table regenerated from go/ssa). no_deadlock (lock discipline: any number of goroutines, each blocked one blocked at a Lock/RLock site of the acquisition table regenerated from go/ssa with only mutexes held that MAY be held there (a may-analysis: union at joins, through calls, deferred unlocks until return); sync.RWMutex semantics with writer preference; a rank computed as a topological order puts every acquired mutex strictly above everything that may be held, checked by complete evaluation: then whenever somebody is blocked, a blocked call can return or a lock holder is running — no state is a deadlock); *_refuted (the re-entrant read lock with a pending writer and the AB/BA inversion are deadlocks and admit no rank); when the table admits no rank the offending rows are named and goroutine mixes on the operations that reach the mutex run under a watchdog: a mix that does not finish is the replay, with the dump of the blocked goroutines. Implementation: translated programs are replayed sequentially against GetStats; barrier-released single-record rounds compare the totals with the true values after quiescence; N in {2, cores, 4*cores} goroutines run seeded mixes of tokenize/parse/format/extract/scan/lint/suggest/span/config/metrics-read under the race detector, every result compared with the sequential answer.",
     note=common.BASE_NOTE + "sync/atomic operations are taken as sequentially consistent single steps and a critical section under the struct's mutex as one atomic step; the access table is complete for accesses reachable through package-level variables by field/index/pointer paths and direct calls (dynamic calls listed in evidence); 'no data race under the Go memory model' beyond that footprint rests on the race detector over the explored schedules, which is supporting evidence, not proof.",
     design='6/C10')
 
 PROPS = ["Props.C10.C10_metrics_totals_exact", "Props.C10.C10_monitor_totals_exact", "Props.C10.C10_counters_exact_always",
          "Props.C10.C10_max_load_compare_store_refuted", "Props.C10.C10_min_load_compare_store_refuted", "Props.C10.C10_max_single_attempt_refuted",
-         "Props.C10.C10_results_sequential", "Props.C10.C10_footprint_race_free", "Props.C10.C10_common_lock_orders"]
+         "Props.C10.C10_results_sequential", "Props.C10.C10_footprint_race_free", "Props.C10.C10_common_lock_orders",
+         "Props.C10.C10_no_deadlock_by_lock_order", "Props.C10.C10_never_deadlocked", "Props.C10.C10_reentrant_read_lock_refuted",
+         "Props.C10.C10_lock_order_inversion_refuted"]
 INST = ["Inst_C10.metrics_progs_ok", "Inst_C10.monitor_progs_ok", "Inst_C10.max_update_is_rmw_loop", "Inst_C10.min_update_is_rmw_loop",
-        "Inst_C10.tokenization_contributes", "Inst_C10.parse_contributes", "Inst_C10.globals_ok"]
+        "Inst_C10.tokenization_contributes", "Inst_C10.parse_contributes", "Inst_C10.globals_ok", "Inst_C10.lock_order_ok"]
 # which public operations of the mix touch the state of a package (to aim the race-detector search at a broken table entry)
 PKG_OPS = {"pkg/config": ["config"], "pkg/errors": ["suggest", "parse"], "pkg/sql/ast": ["span", "parse", "extract"], "pkg/metrics": ["metrics", "tokenize", "parse"],
            "pkg/sql/security": ["scan"], "pkg/linter": ["lint"], "pkg/sql/tokenizer": ["tokenize"], "pkg/sql/parser": ["parse", "parse_ctx", "parse_hold", "recovery"],
@@ -305,20 +307,81 @@ def wide_inputs(k=2400):
     return out
 
 
+HUNG = -999      # exit code reported by run_mix when the watchdog fired
+
+
+def run_watch(binp, req, watchdog, env=None):
+    """the conc harness under a watchdog.  When it does not finish in time it is sent SIGQUIT (the Go runtime prints the
+    stack of every goroutine with GOTRACEBACK=all and exits): returns (exit code, stdout, stderr, hung)"""
+    env = dict(env or os.environ, GOTRACEBACK="all")
+    p = subprocess.Popen([binp, "conc"], stdin=subprocess.PIPE, stdout=subprocess.PIPE, stderr=subprocess.PIPE, text=True, env=env)
+    try:
+        out, err = p.communicate(json.dumps(req), timeout=watchdog)
+        return p.returncode, out, err, False
+    except subprocess.TimeoutExpired:
+        p.send_signal(signal.SIGQUIT)
+        try:
+            out, err = p.communicate(timeout=60)
+        except subprocess.TimeoutExpired:
+            p.kill()
+            out, err = p.communicate()
+        return p.returncode, out, err, True
+
+
+def blocked_goroutines(dump):
+    """goroutines of a SIGQUIT dump that are blocked in a mutex operation: [{wait, count, frames}] by library frames"""
+    groups = {}
+    for block in re.split(r"\n\s*\n(?=goroutine \d+)", dump):
+        m = re.match(r"\s*goroutine \d+(?: gp=\S+ m=\S+(?: mp=\S+)?)? \[([^\]]*)\]", block)
+        if not m:
+            continue
+        wait = m.group(1).split(",")[0]
+        if not re.search(r"Mutex|semacquire|sync\.Cond|chan |select", wait):
+            continue
+        frames = [re.sub(r"^.*?/pkg/", "pkg/", w) for w in re.findall(r"(?m)^\s+(\S+?/pkg/\S+?\.go:\d+)", block) if "/harness-src" not in w]
+        funcs = [f.split("/")[-1] for f in re.findall(r"(?m)^(\S+)\(.*\)\n\s+\S+?/pkg/\S+?\.go:\d+", block)]
+        key = (wait, tuple(frames[:3]))
+        g = groups.setdefault(key, {"wait": wait, "count": 0, "frames": frames[:3], "funcs": funcs[:3]})
+        g["count"] += 1
+    # goroutines blocked inside the library first (the harness itself waits on channels / wait groups)
+    return sorted(groups.values(), key=lambda g: (not g["frames"], "utex" not in g["wait"], -g["count"], g["wait"], g["frames"]))
+
+
 def run_mix(n, k, seed, inputs, ops=None, race=True, timeout=900):
     req = {"mode": "mix", "n": n, "ops_per_g": k, "seed": seed, "inputs": inputs}
     if ops:
         req["ops"] = ops
     env = dict(os.environ, GORACE="halt_on_error=0 exitcode=66")
     binp = common.stage_harness(race=race)
-    pr = common.run([binp, "conc"], input=json.dumps(req), timeout=timeout, env=env)
+    rc, out, err, hung = run_watch(binp, req, timeout, env=env)
     res = None
-    if pr.stdout.strip():
+    if out.strip() and not hung:
         try:
-            res = json.loads(pr.stdout.strip().splitlines()[-1])
+            res = json.loads(out.strip().splitlines()[-1])
         except ValueError:
             res = None
-    return pr.returncode, res, parse_races(pr.stderr), pr.stderr
+    return (HUNG if hung else rc), res, parse_races(err), err
+
+
+# malformed statements: the tokenizer / parser record an error for them (the error breakdown takes its write lock)
+FAILING_INPUTS = ["SELECT 'unterminated", "SELECT \"open", "SELEC 1", "SELECT * FORM t", "SELECT a FROM", "INSERT INTO t VALUES (", "SELECT 1 +", "SELECT @",
+                  "SELECT `x", "UPDATE SET", "SELECT /* open", "SELECT 1e", "CREATE TABLE (", "SELECT 1 FROM t WHERE", "SELECT (1", "DROP"]
+
+
+def hang_search(pkg, quick):
+    """look for an execution that never finishes: goroutines hammer the operations that reach the package's mutexes
+    (reads of the state + operations on malformed inputs, so that error paths take the write locks) under a watchdog"""
+    ops = PKG_OPS.get(pkg) or None
+    inputs = FAILING_INPUTS + ["SELECT 1", "SELECT a, b FROM t WHERE a = 1"]
+    nc = cpus()
+    for n in (4, nc):
+        watchdog = 60 if quick else 120
+        k = 20000
+        rc, res, races, err = run_mix(n, k, common.seed() + n, inputs, ops=ops, race=False, timeout=watchdog)
+        if rc == HUNG:
+            return {"mode": "mix_watchdog", "n": n, "ops_per_g": k, "seed": common.seed() + n, "inputs": inputs, "ops": ops, "watchdog_s": watchdog,
+                    "blocked_goroutines": blocked_goroutines(err)[:6], "goroutine_dump_head": err[:6000]}, 1
+    return None, 2
 
 
 def run_rounds(n, rounds, seed, values=None, timeout=900):
@@ -346,8 +409,9 @@ def run(tier):
             common.stage_harness()
             tabs, _ = gen10.emit_metrics(static)
             gt, _ = gen10.emit_globals(static)
+            lt, _ = gen10.emit_lock_table(static)
             ok_inst, ok_props, _, logs = common.coq_stage(
-                rp, ["theories/Inst/Inst_C10.vo", "theories/Proofs/MetricsP.vo", "theories/Proofs/ConcP.vo", "theories/Proofs/FootprintP.vo"],
+                rp, ["theories/Inst/Inst_C10.vo", "theories/Proofs/MetricsP.vo", "theories/Proofs/ConcP.vo", "theories/Proofs/FootprintP.vo", "theories/Proofs/LockOrderP.vo"],
                 "theories/Props/C10.v", PROPS, inst_names=INST)
             common.stage_harness(race=True)
     except common.StageError as e:
@@ -495,7 +559,44 @@ def run(tier):
             base["explanation"] = ("package-level state %s is accessed without a common mutex / Once / atomic operation (%s at %s vs %s at %s): the footprint instance lemma no longer holds" % (
                 cell, "write" if a[1] else "read", wa[0]["pos"] if wa else "?", "write" if b[1] else "read", wb[0]["pos"] if wb else "?"))
         rp.violation(base, "footprint_" + re.sub(r"\W+", "_", root if len(cells_of_root) > 1 else cell), no_input=not found)
-    if not ok_inst and not defects and not bad_cells:
+    # ---- lock discipline: the acquisition table (Lock / RLock sites with may-held sets) must admit a rank
+    rp.cov["lock_order"] = {"mutexes": {m: lt["rank"][m] for m in lt["muts"]}, "acquisition_sites": len(lt["acqs"]), "distinct_rows": len(lt["rows"]),
+                            "nested_sites": [{"mutex": a["cell"], "mode": a["mode"], "may_held": a["may_held"], "func": a["func"], "pos": a["pos"]} for a in lt["acqs"] if a["may_held"]],
+                            "sites": [{"mutex": a["cell"], "mode": a["mode"], "func": a["func"], "pos": a["pos"]} for a in lt["acqs"]],
+                            "notes": static.get("acq_notes") or []}
+    rp.obligation("lock discipline: a rank on the %d mutexes reachable from package-level state puts every one of the %d Lock/RLock sites strictly above everything that may be held there" % (len(lt["muts"]), len(lt["acqs"])),
+                  not lt["bad"], json.dumps([list(k) for k in lt["bad"]])[:300])
+    lock_hang = False
+    by_mutex = {}
+    for key in lt["bad"]:
+        # one report per mutex that is re-acquired, one per cycle of the order (named after its first mutex)
+        comp = next((c for c in lt["comps"] if key[0] in c), None)
+        by_mutex.setdefault(key[0] if (key[0] in key[2] or not comp) else comp[0], []).append(key)
+    for mutex, keys in sorted(by_mutex.items()):
+        pkgc = mutex.split(".")[0]
+        rows = [{"mutex": a["cell"], "mode": a["mode"], "may_held": a["may_held"], "func": a["func"], "pos": a["pos"], "reached_from": a.get("entries")}
+                for k in keys for a in lt["where"][k]]
+        reacq = [r for r in rows if any(h.rsplit(":", 1)[0] == r["mutex"] for h in r["may_held"])]
+        what = ("%s is locked (%s) at %s in %s while it may already be held (%s): sync mutexes are not re-entrant, and a second RLock behind a waiting Lock blocks for ever (writer preference)" % (
+                    mutex, reacq[0]["mode"], reacq[0]["pos"], reacq[0]["func"], ", ".join(reacq[0]["may_held"]))
+                if reacq else
+                "%s is locked at %s in %s while %s may be held, and the opposite order occurs too: no rank orders the mutexes %s" % (
+                    rows[0]["mutex"], rows[0]["pos"], rows[0]["func"], ", ".join(rows[0]["may_held"]), [c for c in lt["comps"] if mutex in c][:1]))
+        base = {"kind": "table-gap", "theorem": "Inst_C10.lock_order_ok (C10_no_deadlock_by_lock_order)", "mutex": mutex, "rows": rows[:8],
+                "model_witness": "Props.C10.C10_reentrant_read_lock_refuted" if reacq else "Props.C10.C10_lock_order_inversion_refuted"}
+        found, _ = hang_search(pkgc, quick)
+        evals += 1
+        if found:
+            base.update(found)
+            lock_hang = True
+            bg = found["blocked_goroutines"]
+            base["explanation"] = what + " — reproduced on the implementation: %d goroutines running %s did not finish within %d s; blocked: %s" % (
+                found["n"], found["ops"] or "all operations", found["watchdog_s"],
+                "; ".join("%d x %s at %s" % (g["count"], g["wait"], g["frames"][0] if g["frames"] else "?") for g in bg[:4]))
+        else:
+            base["explanation"] = what + " — the lock-order instance lemma no longer holds for the regenerated acquisition table"
+        rp.violation(base, "lockorder_" + re.sub(r"\W+", "_", mutex), no_input=not found)
+    if not ok_inst and not defects and not bad_cells and not lt["bad"]:
         rp.violation({"kind": "proof", "theorem": "Inst_C10", "log": logs["inst"][-3000:]}, "inst_c10", no_input=True)
     if ok_inst and not ok_props:
         rp.violation({"kind": "proof", "theorem": "Props/C10.v", "log": logs["props"][-3000:]}, "props_c10", no_input=True)
@@ -558,8 +659,21 @@ def run(tier):
     race_files = {w.split(":")[0] for h in race_hits.values() for w in h["where"][:2]}
     for n in [2, nc, 4 * nc]:
         kk = max(20, k * 2 // n) if n > 8 else k
-        rc, res, races, err = run_mix(n, kk, common.seed() + n, inputs)
+        # a mix normally takes seconds (quick) / a few minutes (thorough); once a lock-order violation hung a search, do not wait long again
+        rc, res, races, err = run_mix(n, kk, common.seed() + n, inputs, timeout=(90 if lock_hang else (600 if quick else 1500)))
         evals += (res or {}).get("calls", 0)
+        if rc == HUNG:
+            if not lock_hang:
+                bg = blocked_goroutines(err)
+                rp.violation({"kind": "hang", "mode": "mix", "n": n, "ops_per_g": kk, "seed": common.seed() + n, "inputs": inputs, "blocked_goroutines": bg[:6],
+                              "goroutine_dump_head": err[:6000],
+                              "explanation": "%d goroutines running mixed public operations did not finish (watchdog); blocked: %s" % (
+                                  n, "; ".join("%d x %s at %s" % (g["count"], g["wait"], g["frames"][0] if g["frames"] else "?") for g in bg[:4]))},
+                             "mix_hang_n%d" % n)
+            mixes.append({"n": n, "ops_per_goroutine": kk, "exit": "watchdog"})
+            if lock_hang:
+                break      # the hang is already reported with the lock-order rows: the larger mixes would only hang again
+            continue
         mixes.append({"n": n, "ops_per_goroutine": kk, "exit": rc, "races": len(races), "mismatches": (res or {}).get("mismatches"),
                       "calls": (res or {}).get("calls"), "ms": (res or {}).get("ms"), "op_count": (res or {}).get("op_count")})
         for r in races:
@@ -607,6 +721,7 @@ def run(tier):
     rp.cov["cores"] = nc
     rp.cov["notes"].append("the race detector only sees the schedules that happened: its silence is supporting evidence, not proof; the proofs are over the models tied to the source by the regenerated tables")
     rp.assumptions = ["sync/atomic operations are sequentially consistent single steps; a critical section under the struct's mutex is one atomic step (mutual exclusion of sync.Mutex)",
+                      "lock discipline: the acquisition table is complete for Lock/RLock calls on mutexes reachable from package-level state through field/pointer paths and static calls (calls through function values / interface methods made while a lock may be held are listed in evidence lock_order.notes); mutexes of objects that are not package-level state, channels, sync.Cond and sync.WaitGroup are outside the model",
                       "metrics are enabled for the whole run (the disabled => return prologue of every Record function is recognised by the translator and not modelled)",
                       "errorsByType is abstracted to its total; durations/time stamps are opaque per-call values"]
     return rp.finish()
@@ -620,6 +735,10 @@ def replay(path):
         res, err = run_rounds(d["n"], d["rounds"], d.get("seed", 1), values=d.get("values"))
         print(json.dumps(res))
         return 1 if (res is None or res["failed_rounds"]) else 0
+    if mode == "mix_watchdog":
+        rc, res, races, err = run_mix(d["n"], d["ops_per_g"], d.get("seed", 1), d["inputs"], ops=d.get("ops"), race=False, timeout=d.get("watchdog_s", 60))
+        print(json.dumps({"exit": "watchdog: did not finish" if rc == HUNG else rc, "blocked_goroutines": blocked_goroutines(err)[:6] if rc == HUNG else []}, indent=1))
+        return 1 if (rc != 0 or res is None) else 0
     if mode == "mix":
         rc, res, races, err = run_mix(d["n"], d["ops_per_g"], d.get("seed", 1), d["inputs"] if d.get("inputs") is not None else wide_inputs(), ops=d.get("ops"))
         print(json.dumps({"exit": rc, "races": races[:3], "mismatches": (res or {}).get("mismatches"), "bad_totals": (res or {}).get("bad_totals")}))
